@@ -37,3 +37,4 @@ int  __vf_lock_depth(void) { return lock_depth; }
 void __vf_register_alloc(const void* p) {}
 void __vf_access(const void* p, int w) {}
 void __vf_lib_write(const void* p) {}
+_Bool __vf_mutex_try_lock(void* m) { __vf_mutex_lock(m); return 1; }
